@@ -109,18 +109,15 @@ Definition nfg_setitem (g : game) (a : list nat) (v : list T) : game :=
   map (fun i => aset (player g i) (rotl i a) (nth i v d)) (seq 0 (length g)).
 
 (* np.delete(a, k, axis) for an integer k *)
-Fixpoint dec_at (ax : nat) (sh : list nat) : list nat :=
-  match sh, ax with
+Fixpoint upd_at (f : nat -> nat) (ax : nat) (l : list nat) : list nat :=
+  match l, ax with
   | [], _ => []
-  | n :: r, O => (n - 1) :: r
-  | n :: r, S ax' => n :: dec_at ax' r
+  | x :: r, O => f x :: r
+  | x :: r, S ax' => x :: upd_at f ax' r
   end.
-Fixpoint bump_at (ax k : nat) (b : list nat) : list nat :=
-  match b, ax with
-  | [], _ => []
-  | x :: r, O => (if x <? k then x else S x) :: r
-  | x :: r, S ax' => x :: bump_at ax' k r
-  end.
+(* shape after deleting one index along axis ax; source index of result index b *)
+Definition dec_at (ax : nat) (sh : list nat) : list nat := upd_at pred ax sh.
+Definition bump_at (ax k : nat) (b : list nat) : list nat := upd_at (fun x => if x <? k then x else S x) ax b.
 Definition adelete (a : arr) (k ax : nat) : option arr :=
   if (ax <? length (shape a)) && (k <? nth ax (shape a) 0)
   then Some (tab (dec_at ax (shape a)) (fun b => get a (bump_at ax k b)))
